@@ -16,6 +16,8 @@ import TddaVerif.Model.Gentest
 import TddaVerif.Model.CheckStrings
 import TddaVerif.Props.C04
 import TddaVerif.Lemmas.Gentest
+import TddaVerif.Lemmas.GentestScript
+import TddaVerif.Generated.Gentest
 
 namespace TddaVerif.Props.C11
 open TddaVerif.Gentest
@@ -64,5 +66,25 @@ example : testNames isAsciiAlnum {} ["a_b2".toList, "a.b".toList, "a_b".toList, 
 example : numDateLike 31 2 2020 (fun _ _ _ => true) = false := by decide
 example : numDateLike 1 2 0 (fun _ _ _ => true) = false := by decide
 example : numDateLike 29 2 2020 (fun _ _ _ => true) = true := by decide
+
+/-! ### the script template (Model/GentestScript.lean; the template is regenerated from gentest_boilerplate.py) -/
+open TddaVerif.GentestScript in
+/-- in the class body of the template, in the order of the source, every class-level name a statement reads when the
+    class is created (cwd by refdir, cwd and tmpdir by the list of generated files) is defined before it -/
+theorem class_body_well_ordered : wellOrdered (TddaVerif.Generated.Gentest.classBody.map partOf) = true := by decide
+
+open TddaVerif.GentestScript in
+/-- what well-ordered means -/
+theorem wellOrdered_spec (ps : List Part) (h : wellOrdered ps = true) (pre : List Part) (p : Part) (post : List Part)
+    (hs : ps = pre ++ p :: post) (u : List Char) (hu : u ∈ p.uses) : ∃ q ∈ pre, u ∈ q.defines :=
+  GentestScript.Lemmas.wellOrdered_spec ps h pre p post hs u hu
+
+/-- **tie.** The template's class body, its two fixed tests and its entry point are the ones the model reads -/
+theorem tie_script_template :
+    TddaVerif.Generated.Gentest.classBody = ["command", "cwd", "refdir", "%SET_TMPDIR", "%GENERATED_FILES", "setUpClass",
+      "test_no_exception", "test_exit_code"].map String.toList ∧
+    TddaVerif.Generated.Gentest.noExceptionTest = "self.assertIsNone(self.exception)".toList ∧
+    TddaVerif.Generated.Gentest.exitCodeTest = "self.assertEqual(self.exit_code, %(EXIT_CODE)d)".toList ∧
+    TddaVerif.Generated.Gentest.tailMain = "if __name__ == '__main__':; ReferenceTestCase.main()".toList := by decide
 
 end TddaVerif.Props.C11
